@@ -95,8 +95,8 @@ Print Assumptions C02_nozero_old_scan_eats_exponent.
    INT64_MAX comes back as an int64 node, equal), all byte strings incl. NUL/control/non-UTF-8, all finite
    doubles (the strtod oracle is assumed to read the emitted token back as the double) and retained texts with a fraction or exponent: json-c re-parses its own output, the result is
    json_object_equal to the original and serializes to the same text.
-   NOT proved: containers ([roundtrip_statement] is the full statement); they are covered by the computed
-   example below and by the differential correspondence stream of ./check C02 *)
+   Kept as the scalar base case; the statement for ALL trees (containers included) is C02_roundtrip in
+   section 6 below. *)
 Theorem C02_roundtrip_scalars_partial : forall fmt17 strtod, fmt17_ok fmt17 -> forall fl v,
   color fl = false -> scalar_ok fmt17 strtod v -> roundtrip_ok fmt17 strtod fl v.
 Proof. exact roundtrip_scalars_partial. Qed.
@@ -155,6 +155,32 @@ Theorem C02_reset_prints_default : forall fmt17 fl level b t,
   serialize fmt17 fl level (reset_serializer_node (JDouble b t)) = double_text fmt17 fl b.
 Proof. exact reset_prints_default. Qed.
 Print Assumptions C02_reset_prints_default.
+
+(* ---- 5. option formats (json_c_set_serialization_double_format): one global, one per thread *)
+(* a THREAD setting made by another thread is invisible in this thread *)
+Theorem C02_effective_other_thread : forall sup st a b f, a <> b ->
+  effective (fst (set_format sup st a f 1)) b = effective st b.
+Proof. exact effective_other_thread. Qed.
+Print Assumptions C02_effective_other_thread.
+(* a GLOBAL setting made elsewhere applies here unless this thread has its own format *)
+Theorem C02_effective_global_elsewhere : forall sup st a b f, a <> b ->
+  effective (fst (set_format sup st a f 0)) b =
+  match t_lookup b (t_fmt st) with Some own => Some own | None => match f with Some f => Some (c_str f) | None => None end end.
+Proof. exact effective_global_elsewhere. Qed.
+Print Assumptions C02_effective_global_elsewhere.
+(* what a thread prints depends only on its own format and the global one *)
+Theorem C02_serialize_thread_depends : forall fmt17 fmtd st st' tid fl level v,
+  t_lookup tid (t_fmt st) = t_lookup tid (t_fmt st') -> g_fmt st = g_fmt st' ->
+  serialize_thread fmt17 fmtd st tid fl level v = serialize_thread fmt17 fmtd st' tid fl level v.
+Proof. exact serialize_thread_depends. Qed.
+Print Assumptions C02_serialize_thread_depends.
+(* under the built-in format, whatever other threads set for themselves, the text is RFC 8259 and denotes the tree *)
+Theorem C02_default_format_valid : forall fmt17 fmtd, fmt17_ok fmt17 -> forall sup tid calls fl v,
+  Forall (fun c => fst c <> tid) calls -> color fl = false -> tree_ok v ->
+  exists s, stx_ok s = true /\ render s = serialize_thread fmt17 fmtd (others_set sup tid calls fmt_init) tid fl 0 v /\
+            denotes fmt17 (value s) v.
+Proof. exact default_format_valid. Qed.
+Print Assumptions C02_default_format_valid.
 
 (* non-vacuity of the guard and of the oracle hypothesis: the example oracle satisfies fmt17_ok on the
    example's doubles, and the example tree satisfies node_ok *)
